@@ -70,8 +70,12 @@ def run(model, res, tier):
     res.assumptions += ['A3 ply 3.11: function tokens are tried in definition order; yacc resolves S/R conflicts by the precedence table']
     res.trusted += ['ply.yacc Grammar/LRGeneratedTable as table generator', 'CPython ast', 're._parser']
     _r1(model, res, g)
-    _r2(model, res, g)
     _r3(model, res, g)
+    if any(f_.rule == 'R3' for f_ in res.findings):
+        # without one E : E op E production per operator the automaton has no completed operator items to examine
+        res.notes.append('C04.R2 not evaluated: the production shapes it is defined on are violated (R3)')
+    else:
+        _r2(model, res, g)
     _r4(model, res, c, g)
     _r5(model, res, c, g)
     _r6(model, res, g)
